@@ -58,6 +58,25 @@ def run(tier):
                          'either side; I=%d T=%d G=%d monitor=%s' % (i, t, g, mon),
                     impl=impl, cfg=cfg, nslots=2, scripts=timing_scripts(seed, i, t, 20 if th else 8)))
     core.conform(ck, plans, par=4)
+    # the threaded server under pre-emptive schedules with a peer that really answers: this
+    # package's threaded client on the same hub, idle periods of many heartbeat cycles, time in
+    # steps of 1-3 ticks, an occasional send either way.  A live peer must never be dropped:
+    # validated against the end-to-end contract (nobody ends an idle connection).
+    from . import c10
+    from .. import tracecheck
+    itr, imeta = c10.run_idle_preempt(ck, seed + 7, 400 if th else 60, end=False)
+    v = tracecheck.validate('EioE2ETrace', itr, constants={'MaxMsg': 100000}, batch=400)
+    ck.cov['states'] += v.states
+    ck.cov['transitions'] += v.generated
+    ck.add_conformance('threaded server + threaded client of this package on one pre-emptive hub '
+                       '(switches at every queue / websocket primitive, tasks held back at the call '
+                       'and at the return of put): idle periods of 20-40 steps over %d heartbeat '
+                       'settings, validated against EioE2E: a peer that answers every PING is never '
+                       'dropped' % len(c10.IDLE_HB), len(itr), len(v.accepted))
+    for i in v.rejected[:3]:
+        ck.violation('live peer dropped under a pre-emptive schedule (%s, heartbeat=%s): %s' % (
+            imeta[i]['transports'], imeta[i]['hb'], c10.explain(itr[i])),
+            {'meta': imeta[i], 'trace': itr[i], 'kind': 'e2e'})
     # detection bound measured on the recorded traces (independent of the spec's bookkeeping)
     ck.cov['rule'] = ('case = one timing script (PONG offsets relative to each PING deadline in '
                       '{-1,0,+1} units of 1/16 s, or silence; sends, polls, second session) on one '
@@ -115,4 +134,9 @@ def timing_scripts(seed, I, T, n):
 
 
 def replay(path):
+    import json
+    with open(path) as f:
+        if json.load(f).get('kind') == 'e2e':
+            from . import c10
+            return c10.replay(path, 'C07')
     return core.replay_server_trace('C07', path)
